@@ -1,6 +1,7 @@
 #!/bin/bash
 # Entry point registered in MANIFEST.json: ./run.sh <Cxx> <quick|thorough> [--replay path]
 cd "$(dirname "$0")"
+export VERIF_DIR="$PWD"
 export GOFLAGS=-mod=mod GOPROXY=off GOSUMDB=off GOTOOLCHAIN=local
 if [ ! -x bin/vcheck ] || [ -n "$(find cmd internal rt -newer bin/vcheck -name '*.go' -print -quit 2>/dev/null)" ]; then
   mkdir -p bin
